@@ -12,15 +12,15 @@ import (
 )
 
 type PropSpec struct {
-	ID        string   `json:"id"`
-	Funcs     []string `json:"funcs"`      // function keys (short form) whose obligations count
-	Kinds     []string `json:"kinds"`      // obligation kinds that count ("" = all)
-	Lemmas    []string `json:"lemmas"`     // lemma names
-	Grounds   []string `json:"grounds"`    // ground-obligation generators
-	Level     string   `json:"level"`      // evidence level
-	Assume    []string `json:"assumptions"`
-	Note      string   `json:"note"`
-	Extra     []string `json:"extra"`      // extra engines (lock, json, ...)
+	ID      string   `json:"id"`
+	Funcs   []string `json:"funcs"`   // function keys (short form) whose obligations count
+	Kinds   []string `json:"kinds"`   // obligation kinds that count ("" = all)
+	Lemmas  []string `json:"lemmas"`  // lemma names
+	Grounds []string `json:"grounds"` // ground-obligation generators
+	Level   string   `json:"level"`   // evidence level
+	Assume  []string `json:"assumptions"`
+	Note    string   `json:"note"`
+	Extra   []string `json:"extra"` // extra engines (lock, json, ...)
 }
 
 func main() {
@@ -128,6 +128,7 @@ type runResult struct {
 	solverMs  int64
 	canaries  int
 	canaryBad []string
+	skipped   []string
 }
 
 // resolveFuncs expands a short function name or pattern ("reader.*", "reader.Reader.Uint16").
@@ -204,6 +205,11 @@ func (r *Runner) run(spec *PropSpec) *runResult {
 		}
 	}
 	for _, g := range spec.Grounds {
+		if g == "jsonshape" {
+			fc := r.w.groundJSONShape()
+			res.ctxs = append(res.ctxs, fc)
+			res.obls = append(res.obls, fc.obls...)
+		}
 		if g == "infomodel" {
 			fc := r.w.groundInfoModel()
 			res.ctxs = append(res.ctxs, fc)
@@ -244,6 +250,10 @@ func (r *Runner) run(spec *PropSpec) *runResult {
 			if msg := r.w.checkIntrinsicWrapper(k, spec); msg != "" {
 				res.translate = append(res.translate, shortKey(k)+": "+msg)
 			}
+			continue
+		}
+		if c := r.w.Contracts[k]; c != nil && c.Opts["noverify"] != "" {
+			res.skipped = append(res.skipped, shortKey(k)+": "+c.Opts["noverify"])
 			continue
 		}
 		fc := r.w.verifyFunc(k)
